@@ -165,9 +165,13 @@ class ComponentLevel2( ComponentLevel1 ):
         # slice: [x:y] where x and y are either normal integers or
         #        closure/global variable.
         else:
+          # a constant used as an index may be a Bits object
+          def as_index( x ):
+            return int(x) if isinstance( x, Bits ) else x
+
           if isinstance( current_idx, tuple ):
             is_closure, name = current_idx
-            current_idx = _closure[ name ] if is_closure else _globals[ name ]
+            current_idx = as_index( _closure[ name ] if is_closure else _globals[ name ] )
           elif isinstance( current_idx, slice ):
             start = current_idx.start
             if isinstance( start, tuple ):
@@ -177,7 +181,7 @@ class ComponentLevel2( ComponentLevel1 ):
             if isinstance( stop, tuple ):
               is_closure, name = stop
               stop = _closure[ name ] if is_closure else _globals[ name ]
-            current_idx = slice(start, stop)
+            current_idx = slice( as_index(start), as_index(stop) )
 
           try:
             child = obj[ current_idx ]
